@@ -51,3 +51,22 @@ Proof. vm_compute. reflexivity. Qed.
 (* VPL and vector tiles: the models are total functions into option - Coq accepts no other *)
 Definition C19_vpl_total : forall v l, {r | parse_vpl v l = r} := fun v l => exist _ (parse_vpl v l) eq_refl.
 Definition C19_mvt_total : forall tv zv b, {r | decode_tile tv zv b = r} := fun tv zv b => exist _ (decode_tile tv zv b) eq_refl.
+
+(* ---- two guards added by repairs: sub-reader length check, undecodable features ---- *)
+From VT Require Import Model.Guards Proofs.GuardsProofs.
+Lemma C19_gen_guard_variants : subreader_variant = 1%N /\ fm_unwrap_variant = 1%N.  Proof. split; reflexivity. Qed.
+
+Theorem C19_sub_reader_total : forall start length len, (start <= u64_max -> length <= u64_max -> len < u64_max ->
+  (start + length <= len -> sub_reader subreader_variant start length len = Ok (start, start + length)) /\
+  (len < start + length -> sub_reader subreader_variant start length len = Err))%N.
+Proof. exact sub_reader_total. Qed.
+Print Assumptions C19_sub_reader_total.
+
+Theorem C19_sub_reader_overflow_refuted_before_fix :
+  sub_reader 0 5 u64_max 100 = Overflow /\ sub_reader subreader_variant 5 u64_max 100 = Err.
+Proof. exact sub_reader_overflow_refuted_v0. Qed.
+
+Theorem C19_undecodable_feature_is_an_error : forall (A : Type) (d : option A),
+  fm_decoded fm_unwrap_variant d <> Panic /\ fm_decoded 0 (@None A) = Panic.
+Proof. exact @fm_decoded_never_panics. Qed.
+Print Assumptions C19_undecodable_feature_is_an_error.
